@@ -30,12 +30,15 @@ Protocol (one line per request, ASCII):
                                              oracle's Python terminal; the real code is not involved)
 eff / nc letters: N None, F False, T True, 0 1 2 (ints), e "", x "x", l [], L [0], z 0.0, h 1.5 - the code's
               contract is truthiness, the oracle requests an effect iff the value is truthy
-colour token: N (None) | s:<code points> | i:<int> | f:<decimal> (a float) | t:<num,num,..> ('-' = empty; a
-              component with '.' is a float) | o (a bytes object)
+colour token: N (None) | s:<code points> | i:<int> | ie:<int> (IntEnum member) | is:<int> (instance of an int subclass) |
+              f:<decimal> (a float) | t:<num,..> ('-' = empty; component with '.' = float, e<n> IntEnum, s<n> int
+              subclass) | tn: (namedtuple) | ts: (tuple subclass) | o (a bytes object)
 eff: five flag letters for bold, faint, underline, blink, crossed;  nc: one flag letter
 strings: comma separated code points, '-' = empty.
 """
 import ast
+import collections
+import enum
 import os
 import re
 
@@ -56,6 +59,8 @@ THEOREMS = [
     "C09.bytes_same",
 ]
 RULE = ("fmt: every fg x bg pair of the 8 names, all 256 ints, all 216 cube triples, g0..g30 (each as fg and as bg), "
+        "every int 0-255 also as IntEnum member and as instance of an int subclass, every cube triple also as namedtuple / "
+        "tuple subclass / tuple of mixed int kinds (and malformed ones of each kind), "
         "all 3^5 None/False/True effect settings, every kind of flag value (None False True 0 1 2 '' 'x' [] [0] 0.0 1.5) "
         "at each of the five effects and at no_color for the text and the bytes formatter, all 12x12 pairs for two "
         "flags, random mixes of kinds, malformed values (ints/tuples out of range, wrong lengths, unknown and mangled names, "
@@ -80,8 +85,9 @@ ASSUMPTIONS = ["colour ids of the CHText model (C08) stand for formatters with p
                "(checked by the driver on every request: palOk; proved sufficient: C09.abstraction_sound)",
                "a terminal implements SGR as Sgr.run does: parameters 0,1,2,4,5,9,22,24,25,29,30-37,39,40-47,49 and the "
                "colon forms 38:5:n / 48:5:n (ITU T.416); bold and faint are independent attributes",
-               "colour values are None, str, int, finite float, tuples of ints/floats or objects of another hashable type "
-               "(bytes); bool, list, tuples with non-numeric members, nan/inf and 'g'+<text int() accepts but that is not "
+               "colour values are None, str, int (also IntEnum members and instances of other int subclasses: the model "
+               "takes their int value), finite float, tuples (also namedtuples / tuple subclasses) of ints/floats or "
+               "objects of another hashable type (bytes); bool, list, tuples with non-numeric members, nan/inf and 'g'+<text int() accepts but that is not "
                "ASCII digits> are outside the domain",
                "state between test cases is not reset (one Python process per worker): failures that depend on what "
                "earlier cases did are reported but may not replay alone; seq/hist/ops cases are self-contained"]
@@ -269,6 +275,34 @@ def translate(repo):
 
 
 # ------------------------------------------------------------------ protocol <-> python values
+# kinds of ints and tuples: the code's contract is isinstance(), so subclasses (other than bool) are in the domain
+class IntSub(int):
+    """an int subclass (like a `class Code(int)` of an application)"""
+
+
+class TupleSub(tuple):
+    """a tuple subclass"""
+
+
+RGB = collections.namedtuple("RGB", "r g b")
+_ENUMS = {}
+
+
+def int_enum(n):
+    """an enum.IntEnum member with the value n"""
+    if n not in _ENUMS:
+        _ENUMS[n] = enum.IntEnum("Colour%s" % str(n).replace("-", "m"), {"V": n}).V
+    return _ENUMS[n]
+
+
+def _enc_comp(x):
+    if isinstance(x, float):
+        return _enc_float(x)
+    if isinstance(x, bool):
+        raise ValueError("bool colour values are outside the domain")
+    return ("e%d" if isinstance(x, enum.IntEnum) else "s%d" if isinstance(x, IntSub) else "%d") % int(x)
+
+
 def enc_color(v):
     if v is None:
         return "N"
@@ -277,11 +311,12 @@ def enc_color(v):
     if isinstance(v, bool):
         raise ValueError("bool colour values are outside the domain")
     if isinstance(v, int):
-        return "i:%d" % v
+        return ("ie:%d" if isinstance(v, enum.IntEnum) else "is:%d" if isinstance(v, IntSub) else "i:%d") % int(v)
     if isinstance(v, float):
         return "f:" + _enc_float(v)
     if isinstance(v, tuple):
-        return "t:" + (",".join(_enc_float(x) if isinstance(x, float) else "%d" % x for x in v) if v else "-")
+        kind = "tn:" if isinstance(v, RGB) else "ts:" if isinstance(v, TupleSub) else "t:"
+        return kind + (",".join(_enc_comp(x) for x in v) if v else "-")
     return "o"
 
 
@@ -296,6 +331,10 @@ def _enc_float(v):
 
 
 def _dec_num(x):
+    if x[0] == "e":
+        return int_enum(int(x[1:]))
+    if x[0] == "s":
+        return IntSub(int(x[1:]))
     return float(x) if "." in x else int(x)
 
 
@@ -309,10 +348,15 @@ def dec_color(tok):
         return dec_str(rest)
     if k == "i":
         return int(rest)
+    if k == "ie":
+        return int_enum(int(rest))
+    if k == "is":
+        return IntSub(int(rest))
     if k == "f":
         return float(rest)
-    if k == "t":
-        return () if rest == "-" else tuple(_dec_num(x) for x in rest.split(","))
+    if k in ("t", "tn", "ts"):
+        comps = () if rest == "-" else tuple(_dec_num(x) for x in rest.split(","))
+        return comps if k == "t" else TupleSub(comps) if k == "ts" else RGB(*comps)
     raise ValueError("bad colour token " + tok)
 
 
@@ -596,7 +640,7 @@ def _with_budget(fn, steps=300000):
 
 
 def observe(op, toks):
-    return _with_budget(lambda: _observe(op, toks))
+    return _with_budget(lambda: _observe(op, toks), 300000 + 3000 * len(toks))
 
 
 def _observe(op, toks):
@@ -1038,6 +1082,15 @@ def rand_text(rng, maxlen=12):
 
 
 def rand_valid_color(rng):
+    v = _rand_valid_plain(rng)
+    if rng.random() < 0.12 and not isinstance(v, (str, type(None))):
+        if isinstance(v, int):
+            return rng.choice([int_enum, IntSub])(v)
+        return rng.choice([RGB(*v), TupleSub(v), tuple(rng.choice([int, int_enum, IntSub])(x) for x in v)])
+    return v
+
+
+def _rand_valid_plain(rng):
     k = rng.randrange(6)
     if k == 0:
         return None
@@ -1351,6 +1404,27 @@ def gen_cases(rng, tier):
         other = rand_valid_color(rng)
         yield _case("fmt %s %s" % (spec_tokens(v, other, rand_eff(rng)), enc_str(rand_text(rng))), "fmt-mixed")
         yield _case("fmt %s %s" % (spec_tokens(other, v, rand_eff(rng)), enc_str(rand_text(rng))), "fmt-mixed")
+    # --- kinds of ints and tuples (the code's contract is isinstance): IntEnum members, int / tuple subclasses,
+    #     namedtuples are colour values like plain ints / tuples
+    for v in range(256):
+        for mk in (int_enum, IntSub):
+            yield _case("fmt %s %s" % (spec_tokens(mk(v), None), t0), "value-kinds")
+            if v % 8 == 0 or thorough:
+                yield _case("fmt %s %s" % (spec_tokens(rand_valid_color(rng), mk(v), rand_eff(rng)), t0), "value-kinds")
+                yield _case("bytes %s %s" % (spec_tokens(mk(v), None), enc_bytes(b"ab")), "value-kinds")
+    for c in cube:
+        k = rng.randrange(3)
+        mixed = tuple((int_enum, IntSub, int)[(k + i) % 3](x) for i, x in enumerate(c))
+        for val in (RGB(*c), TupleSub(c), mixed):
+            yield _case("fmt %s %s" % (spec_tokens(val, None), t0), "value-kinds")
+        yield _case("fmt %s %s" % (spec_tokens(None, rng.choice([RGB(*c), TupleSub(c), RGB(*mixed)])), t0), "value-kinds")
+    for bad in [int_enum(-1), int_enum(256), IntSub(-1), IntSub(256), IntSub(10 ** 20), RGB(6, 0, 0), RGB(0, -1, 0),
+                RGB(1.0, 2, 3), TupleSub(()), TupleSub((1, 2)), TupleSub((1, 2, 3, 4)), TupleSub((0, 0, 6)),
+                (int_enum(6), 0, 0), (0, IntSub(-1), 0), TupleSub((1, 2.5, 3))]:
+        for nc in "FT":
+            yield _case("fmt %s %s" % (spec_tokens(bad, None, "NNNNN", nc), t0), "value-kinds-malformed")
+            yield _case("fmt %s %s" % (spec_tokens("RED", bad, "TNNNN", nc), t0), "value-kinds-malformed")
+        yield _case("bytes %s %s" % (spec_tokens(bad, None), enc_bytes(b"ab")), "value-kinds-malformed")
     for n in range(3 ** 5):
         eff = "".join("NFT"[(n // 3 ** i) % 3] for i in range(5))
         yield _case("fmt %s %s" % (spec_tokens(None, None, eff), t0), "fmt-effects")
@@ -1429,6 +1503,18 @@ def gen_cases(rng, tier):
                 fg, bg, eff = rng.choice(pool)
                 toks.append("%s %s" % (spec_tokens(fg, bg, eff, rand_nc(rng, 0.07)), enc_str(text)))
         yield _case("cht %d %s" % (n, " ".join(toks)) if n else "cht 0", "cht-malformed" if bad else "cht-%d" % min(n, 4))
+    # --- sizes: long reports (many coloured chunks in one string, many sequences through strip_colors)
+    pool = [spec_tokens("RED"), spec_tokens(None, 123, "TNNNN"), spec_tokens((1, 2, 3), "g5"), spec_tokens("BLUE", None, "NNNNT")]
+    for n in (1, 2, 127, 128, 129, 130, 200, 257, 1000) + ((2000, 3000) if thorough else ()):
+        parts = " ".join("%s %s" % (pool[i % len(pool)], enc_str("c%d" % i if i % 7 else "[m;1")) for i in range(n))
+        yield _case("cht %d %s" % (n, parts), "size-cht")
+        two = [pool[0], pool[3]]
+        yield _case("hist 2 %s %s %s r %s r" % (two[0], two[1],
+                                               " ".join("a:%d:%s" % (1 + i % 2, enc_str("r%d " % i)) for i in range(n)),
+                                               "a:0:" + enc_str("end")), "size-hist")
+        seqs = [_emitted("RED"), ESC + "[0m", _emitted(200, (5, 5, 5), "TTTTT"), ESC + "[0m"]
+        yield _case("strip " + enc_str("".join(seqs[i % 4] + ("t%d" % i if i % 2 == 0 else "") for i in range(2 * n))), "size-strip")
+        yield _case("strip " + enc_str((ESC + "[0m") * (2 * n) + "tail"), "size-strip")
     # --- several calls in one process (validation must not remember earlier calls)
     for v in (list(range(0, 256, 5)) if not thorough else list(range(256))):
         fv = float(v)
@@ -1468,6 +1554,11 @@ def gen_cases(rng, tier):
 def search_cases(rng, tier):
     """directed search around the modelled constructs: every single colour value in every position with
     texts made of the characters of the sequences themselves, every effect, every boundary value"""
+    # a changed strip_colors call / pattern shape: long strings first (limits such as a count argument)
+    for n in (129, 257, 300, 1000, 3000):
+        yield _case("strip " + enc_str("".join(_emitted(i % 256) + "x" + ESC + "[0m" for i in range(n))), "search-size")
+        yield _case("cht %d %s" % (n, " ".join("%s %s" % (spec_tokens(i % 256 if i % 2 else "RED", None, "NTNNN" if i % 2 else "NNNNN"),
+                                                          enc_str("w%d" % i)) for i in range(n))), "search-size")
     texts = ["x", "m", "0m", ";1m", ":", "[31m", "38:5:1", ""]
     vals = [None] + STD_NAMES + list(range(256)) + [(r, g, b) for r in range(6) for g in range(6) for b in range(6)] \
         + ["g%d" % i for i in range(31)]
